@@ -123,7 +123,7 @@ def mutate(draw: t.Any, v: t.Any, names: t.Sequence[str], depth: int = 0) -> t.A
     if mp:
         ops += ['dropkey', 'addkey', 'addkey', 'renamekey', 'to_items', 'reshape', 'badkey', 'inserting-drop', 'respell-key']
     if isinstance(v, str):
-        ops += ['to_chars', 'to_bytes', 'to_sub']
+        ops += ['to_chars', 'to_bytes', 'to_sub', 'to_sub', 'to_sub']
     if isinstance(v, bool):
         ops += ['to_int']
     elif isinstance(v, int):
